@@ -22,6 +22,10 @@ import (
 func main() {
 	a := hx.Args()
 	hxnode.BootServices("dev")
+	// same pool object over the same store, with the executed store registered as "tx" at the
+	// write gate (db.VerifC05Gate) so that single physical writes can be observed and refused
+	service.VerifC05RestartTxPool()
+	installGate()
 	pool := service.GetTransactionPool()
 	if pool == nil {
 		fmt.Println("FATAL pool is nil after InitService")
@@ -34,6 +38,8 @@ func main() {
 		runSearch(a, pool)
 	case "race":
 		runRace(a, pool)
+	case "chain":
+		runChain(a, pool)
 	default:
 		runCorr(a, pool)
 	}
